@@ -597,6 +597,29 @@ def r_ref_to_array(text):
     return re.subn(r"\b(const\s+)?([A-Za-z_]\w*)\s*\(\s*&\s*([A-Za-z_]\w*)\s*\)\s*\[[^\]]*\]\s*=", lambda m: "%s%s *%s =" % (m.group(1) or "", m.group(2), m.group(3)), text)
 
 
+def r_local_const_ref(text, vec_types=("IN_VEC_T", "OUT_VEC_T")):
+    """R28: a local const reference bound to an lvalue, `const T & name = e;` -> `const T *verif_ref_name = &(e);`
+    and every later use of `name` -> `(*verif_ref_name)` (`name[i]` -> `verif_ref_name->m_data[i]` when T is a
+    covfie::array type).  Only const references: reads through the alias, no write."""
+    count = 0
+    rx = re.compile(r"\bconst\s+([A-Za-z_]\w*)\s*&\s*([A-Za-z_]\w*)\s*=\s*([^;{}]+);")
+    pos = 0
+    while True:
+        m = rx.search(text, pos)
+        if not m:
+            break
+        ty, nm, ex = m.group(1), m.group(2), m.group(3).strip()
+        decl = "const %s *verif_ref_%s = &(%s);" % (ty, nm, ex)
+        rest = text[m.end():]
+        if ty in vec_types:
+            rest = re.sub(r"(?<![A-Za-z_0-9.>])" + re.escape(nm) + r"\s*\[", "verif_ref_%s->m_data[" % nm, rest)
+        rest = re.sub(r"(?<![A-Za-z_0-9.>])" + re.escape(nm) + r"\b(?!\s*\()", "(*verif_ref_%s)" % nm, rest)
+        text = text[:m.start()] + decl + rest
+        pos = m.start() + len(decl)
+        count += 1
+    return text, count
+
+
 def r_brace_scalar_init(text):
     """`T f{1.};` -> `T f = (1.);` for scalar declarations."""
     rx = re.compile(r"\b([A-Za-z_][A-Za-z_0-9]*)\s+([A-Za-z_][A-Za-z_0-9]*)\s*\{([^{};]*)\}\s*;")
@@ -967,6 +990,50 @@ def ctor_init_statements(header):
 
 
 LOOP_RX = re.compile(r"(?<![A-Za-z_0-9])(for|while)\s*\(")
+
+
+def r_range_for(text):
+    """R27: 'for (DECL : X) BODY' over a covfie::array object X (nd_size, vector) ->
+    'for (size_t verif_rk<n> = 0; verif_rk<n> < VERIF_ARRAY_LEN(X); ++verif_rk<n>) { DECL = (X).m_data[verif_rk<n>]; BODY }'.
+    DECL must declare a by-value or const-reference element (a mutable reference would alias the element)."""
+    count = 0
+    pos = 0
+    while True:
+        m = re.compile(r"(?<![A-Za-z_0-9])for\s*\(").search(text, pos)
+        if not m:
+            break
+        op = m.end() - 1
+        cp = match_close(text, op)
+        hdr = text[op + 1:cp]
+        if hdr.count(";") != 0 or ":" not in hdr.replace("::", "  "):
+            pos = cp + 1
+            continue
+        i = hdr.replace("::", "  ").index(":")
+        decl, rng = hdr[:i].strip(), hdr[i + 1:].strip()
+        if not re.match(r"^[A-Za-z_][\w.>()*-]*$", rng):
+            raise ExtractionError("range-for over an expression that is not an object name: %r" % rng)
+        if "&" in decl:
+            if not re.search(r"\bconst\b", decl):
+                raise ExtractionError("range-for with a mutable reference element: unsupported (%r)" % decl)
+            decl = re.sub(r"\s*&\s*", " ", decl)
+        # body: a block or a single statement
+        j = cp + 1
+        while text[j].isspace():
+            j += 1
+        if text[j] == "{":
+            cb = match_close(text, j)
+            inner = text[j + 1:cb]
+            end = cb + 1
+        else:
+            end = text.index(";", j) + 1
+            inner = text[j:end]
+        k = "verif_rk%d" % count
+        rep = ("for (size_t %s = 0; %s < VERIF_ARRAY_LEN(%s); ++%s) { %s = (%s).m_data[%s]; %s }"
+               % (k, k, rng, k, decl, rng, k, inner))
+        text = text[:m.start()] + rep + text[end:]
+        pos = m.start() + 4
+        count += 1
+    return text, count
 
 
 def weave_loops(text, fname):
